@@ -48,7 +48,8 @@ pub enum Op {
     /// 3 = risk-admin deleverage bracket [start, repay_all (token-less when allowed), end] on user u
     Sunset { b: u16, u: u16, step: u8 },
     Transfer { u: u16 },
-    CloseAccount { u: u16 },
+    /// payer: 0 = the authority pays the fee / receives the rent itself, 1 = a separate wallet (the stranger) does
+    CloseAccount { u: u16, #[serde(default)] payer: u8 },
     Freeze { u: u16, on: bool },
     Pulse { u: u16 },
     /// emissions: step 0 = the emissions admin sets emissions up on bank b (flags 1 borrow / 2 lending / 3 both
@@ -174,7 +175,7 @@ pub fn op_strategy() -> impl Strategy<Value = Op> {
         3 => (i(), prop_oneof![3 => Just(5u8), 3 => Just(6u8), 2 => Just(7u8), 2 => Just(8u8), 1 => Just(9u8), 1 => Just(10u8), 1 => Just(11u8)], any::<u64>()).prop_map(|(b, kind, val)| Op::Configure { b, kind, val }),
         4 => (i(), i(), prop_oneof![1 => Just(0u8), 1 => Just(1u8), 3 => Just(2u8), 2 => Just(3u8)]).prop_map(|(b, u, step)| Op::Sunset { b, u, step }),
         1 => i().prop_map(|u| Op::Transfer { u }),
-        1 => i().prop_map(|u| Op::CloseAccount { u }),
+        1 => (i(), 0u8..2).prop_map(|(u, payer)| Op::CloseAccount { u, payer }),
         1 => (i(), any::<bool>()).prop_map(|(u, on)| Op::Freeze { u, on }),
         1 => i().prop_map(|u| Op::Pulse { u }),
         3 => (i(), i(), prop_oneof![3 => Just(0u8), 2 => Just(1u8), 1 => Just(2u8)], any::<u8>()).prop_map(|(b, u, step, val)| Op::Emissions { b, u, step, val }),
@@ -969,12 +970,13 @@ impl Runner {
                 st.other_macct = Some(new);
                 st.ixs = vec![ix];
             }
-            Op::CloseAccount { u } => {
+            Op::CloseAccount { u, payer } => {
                 let ui = idx(*u, nu);
                 let usr = self.w.users[ui].clone();
                 st.user = Some(ui);
                 st.macct = Some(usr.accts[0]);
-                st.ixs = vec![self.w.ix_close_account(usr.accts[0], usr.auth)];
+                let fee_payer = if *payer == 1 { self.w.roles.stranger } else { usr.auth };
+                st.ixs = vec![self.w.ix_close_account_paid_by(usr.accts[0], usr.auth, fee_payer)];
             }
             Op::Freeze { u, on } => {
                 let ui = idx(*u, nu);
@@ -1163,6 +1165,33 @@ impl Runner {
             }
         }
         accepted
+    }
+
+    /// What-if probe for an account that has just been frozen or disabled: on clones of the store its authority (and,
+    /// for a frozen account, the group admin in the authority slot) tries to close it, paying the fee itself or
+    /// through a separate fee payer. Returns (attempts accepted — must be none, whether the account was empty so that
+    /// the flag was the only obstacle).
+    pub fn probe_close_flagged(&self, acct: &Pubkey) -> (Vec<&'static str>, bool) {
+        let mut accepted = vec![];
+        let Some(ui) = self.w.users.iter().position(|u| u.accts.contains(acct)) else { return (accepted, false) };
+        let usr = self.w.users[ui].clone();
+        let empty = read_macct(&self.w.vm, acct).map(|a| a.lending_account.balances.iter().all(|b| b.active == 0)).unwrap_or(false);
+        let admin = self.w.roles.admin;
+        let stranger = self.w.roles.stranger;
+        let tries: Vec<(&'static str, Instruction)> = vec![
+            ("close(authority pays)", self.w.ix_close_account_paid_by(*acct, usr.auth, usr.auth)),
+            ("close(separate fee payer)", self.w.ix_close_account_paid_by(*acct, usr.auth, stranger)),
+            ("close(admin as authority)", self.w.ix_close_account_paid_by(*acct, admin, admin)),
+            ("close(admin as authority, separate fee payer)", self.w.ix_close_account_paid_by(*acct, admin, stranger)),
+            ("close(authority, admin pays)", self.w.ix_close_account_paid_by(*acct, usr.auth, admin)),
+        ];
+        for (name, ix) in tries {
+            let mut vm = self.w.vm.clone();
+            if vm.exec_tx(&[ix]).ok {
+                accepted.push(name);
+            }
+        }
+        (accepted, empty)
     }
 
     /// take the post-step snapshot (call after the monitors have seen `self.snap` as pre-state)
@@ -1378,7 +1407,7 @@ pub fn decode_case(data: &[u8]) -> (WorldSpec, Vec<Op>) {
                 4 => Op::Emissions { b: r.u16(), u: r.u16(), step: r.u8() % 3, val: r.u8() },
                 3 => Op::Sunset { b: r.u16(), u: r.u16(), step: r.u8() % 4 },
                 0 => Op::Transfer { u: r.u16() },
-                1 => Op::CloseAccount { u: r.u16() },
+                1 => Op::CloseAccount { u: r.u16(), payer: r.u8() % 2 },
                 _ => Op::Freeze { u: r.u16(), on: r.bool() },
             },
             _ => Op::Pulse { u: r.u16() },
